@@ -234,3 +234,51 @@ def recorder_run(ctx):
         for c in sorted(clauses):
             ctx.violation("recorder|%s|%s" % (c, rec["test"]), c, detail={"bad": rec["bad"], "tmpl": rec["tmpl"]}, sig={"clause": c, "act": "recorder", "test": rec["test"]}, replay={"test": rec["test"]})
     return recs
+
+
+# ----------------------------------------------------------------------------- binding demonstration
+def binding_selftest(ctx, traces, handles=(1, 2, 3), base=(1, 2)):
+    """Corrupt one recorded field at a time in an accepted trace and require TraceGridLazy to
+    reject it with the corresponding clause (a specification nothing binds to the code would
+    accept anything).  Machinery failure if a corruption goes unnoticed."""
+    import copy
+
+    good = None
+    for t in traces:
+        evs = [e for e in t["events"] if not e.get("skipped")]
+        if len(evs) >= 2 and any(e["act"] in ("GetBallTree", "GetKdTree", "ToGdf", "ToPoly", "ToLine") and e.get("obs") not in ([], ["-"]) for e in evs):
+            good = t
+            break
+    if good is None:
+        return 0
+    k = next(i for i, e in enumerate(good["events"]) if e["act"] in ("GetBallTree", "GetKdTree", "ToGdf", "ToPoly", "ToLine") and e.get("obs") not in ([], ["-"]))
+    muts = []
+
+    def variant(tag, clause, f):
+        t = copy.deepcopy(good)
+        t["tid"] = 900000 + len(muts)
+        f(t["events"])
+        muts.append((t, tag, clause))
+
+    def swap_obs(evs):
+        o = list(evs[k]["obs"])
+        o[0] = {"nodes": "faces", "faces": "edges", "edges": "nodes", "exclude": "ignore", "ignore": "split", "split": "exclude"}.get(o[0], "nodes")
+        evs[k]["obs"] = o
+
+    variant("result coincides with another call's ideal result", "Refines", swap_obs)
+    variant("result differs from fresh", "ResultFresh", lambda evs: evs[k].__setitem__("res_ok", False))
+    variant("a stored variable differs from fresh", "StoredFresh", lambda evs: evs[-1].__setitem__("bad", ["1:node_lon"]))
+    variant("a module constant changed", "Templates", lambda evs: evs[0].__setitem__("tmpl", ["ugrid.BASE_GRID_TOPOLOGY_ATTRS"]))
+    variant("raises where fresh returns", "Outcome", lambda evs: evs[k].__setitem__("raised", True))
+    variant("constructor input changed", "InputsKept", lambda evs: evs[-1].__setitem__("inputs", ["1:face_node_connectivity"]))
+    variant("earlier returned object changed", "EarlierKept", lambda evs: evs[-1].__setitem__("earlier", ["ToLine@1"]))
+    viol, _ = validate(ctx, [copy.deepcopy(good)] + [m[0] for m in muts], "binding demonstration: %d corrupted copies of an accepted trace" % len(muts), workers=1, handles=handles, base=base)
+    ctx.traces -= len(muts) + 1
+    if good["tid"] in viol and not any(c for _, c in viol[good["tid"]] if False):
+        pass
+    for t, tag, clause in muts:
+        got = {c for _, c in viol.get(t["tid"], [])}
+        if clause not in got:
+            raise Machinery("binding demonstration failed: corrupted trace (%s) was not rejected by clause %s (got %s)" % (tag, clause, sorted(got)))
+    ctx.note("binding_demonstration", {"corruptions_rejected": len(muts), "clauses": sorted({m[2] for m in muts})})
+    return len(muts)
